@@ -258,4 +258,102 @@ theorem tie_skel_asyncNotify : Gen.Skel.asyncNotify = [
   "}",
   "}"] := by rfl
 
+/-! further functions on this property's paths (any edit to them is reported) -/
+
+theorem tie_skel_connEventHandler_handleEvent : Gen.Skel.connEventHandler_handleEvent = [
+  "func (c *connEventHandler) handleEvent(events int, d *epollDispatcher) {",
+  "if events&syscall.EPOLLRDHUP != 0 {",
+  "c.onRemoteClose()",
+  "return",
+  "}",
+  "if events&syscall.EPOLLIN != 0 {",
+  "if err := c.onReadReady(); err != nil {",
+  "}",
+  "}",
+  "if events&syscall.EPOLLOUT != 0 {",
+  "if err := c.onWriteReady(); err != nil {",
+  "}",
+  "}",
+  "}"] := by rfl
+
+theorem tie_skel_connEventHandler_onRemoteClose : Gen.Skel.connEventHandler_onRemoteClose = [
+  "func (c *connEventHandler) onRemoteClose() {",
+  "c.callback.onRemoteClose()",
+  "c.deferredClose()",
+  "}"] := by rfl
+
+theorem tie_skel_connEventHandler_onWriteReady : Gen.Skel.connEventHandler_onWriteReady = [
+  "func (c *connEventHandler) onWriteReady() error {",
+  "if atomic.LoadUint32(&c.isClose) == 0 {",
+  "asyncNotify(c.onWriteReadyCh)",
+  "}",
+  "return nil",
+  "}"] := by rfl
+
+theorem tie_skel_connEventHandler_setCallback : Gen.Skel.connEventHandler_setCallback = [
+  "func (c *connEventHandler) setCallback(cb eventConnCallback) error {",
+  "if err := syscall.SetNonblock(c.fd, true); err != nil {",
+  "return fmt.Errorf(\"fd:%d couldn't set nobloking,reason=%s\", c.fd, err)",
+  "}",
+  "event := &epollEvent{",
+  "events: syscall.EPOLLIN | syscall.EPOLLOUT | epollModeET | syscall.EPOLLRDHUP,",
+  "}",
+  "*(**connEventHandler)(unsafe.Pointer(&event.data)) = c",
+  "c.dispatcher.lock.Lock()",
+  "defer c.dispatcher.lock.Unlock()",
+  "c.callback = cb",
+  "if err := epollCtl(c.dispatcher.epollFd, syscall.EPOLL_CTL_ADD, c.fd, event); err != nil {",
+  "return fmt.Errorf(\"epollCt fd:%d failed, reason=%s\", c.fd, err)",
+  "}",
+  "c.dispatcher.conns[c.fd] = c",
+  "return nil",
+  "}"] := by rfl
+
+theorem tie_skel_newEpollDispatcher : Gen.Skel.newEpollDispatcher = [
+  "func newEpollDispatcher() *epollDispatcher {",
+  "return &epollDispatcher{",
+  "conns: make(map[int]*connEventHandler, 8),",
+  "pendingLambda: make([]func(), 0, 32),",
+  "runningLambda: make([]func(), 0, 32),",
+  "}",
+  "}"] := by rfl
+
+theorem tie_skel_epollDispatcher_newConnection : Gen.Skel.epollDispatcher_newConnection = [
+  "func (d *epollDispatcher) newConnection(file *os.File) eventConn {",
+  "return &connEventHandler{",
+  "fd: int(file.Fd()),",
+  "file: file,",
+  "dispatcher: d,",
+  "readBuffer: make([]byte, 64*1024),",
+  "onWriteReadyCh: make(chan struct{}, 1),",
+  "isClose: 0,",
+  "}",
+  "}"] := by rfl
+
+theorem tie_skel_epollCtl : Gen.Skel.epollCtl = [
+  "func epollCtl(epfd int, op int, fd int, event *epollEvent) (err error) {",
+  "_, _, errCode := syscall.RawSyscall6(syscall.SYS_EPOLL_CTL, uintptr(epfd), uintptr(op), uintptr(fd), uintptr(unsafe.Pointer(event)), 0, 0)",
+  "if errCode != syscall.Errno(0) {",
+  "err = errCode",
+  "}",
+  "return err",
+  "}"] := by rfl
+
+theorem tie_skel_epollWait : Gen.Skel.epollWait = [
+  "func epollWait(epfd int, events []epollEvent, msec int) (n int, err error) {",
+  "var n_ uintptr",
+  "n_, _, errNo := syscall.Syscall6(syscall.SYS_EPOLL_WAIT, uintptr(epfd), uintptr(unsafe.Pointer(&events[0])),",
+  "uintptr(len(events)), uintptr(msec), 0, 0)",
+  "if errNo == syscall.Errno(0) {",
+  "err = nil",
+  "}",
+  "return int(n_), err",
+  "}"] := by rfl
+
+theorem tie_skel_Session_waitForSend : Gen.Skel.Session_waitForSend = [
+  "func (s *Session) waitForSend(hdr header, body []byte) error {",
+  "errCh := make(chan error, 1)",
+  "return s.waitForSendErr(hdr, body, errCh)",
+  "}"] := by rfl
+
 end Tie.C18
